@@ -33,7 +33,28 @@ PROPS["C11"] = {"engines": [("align", {"quick": 4000, "thorough": 100000})], "ru
                 "assumptions": ["element source texts are recovered from the rewritten file with ast.get_source_segment",
                                 "black leaves hand-written element expressions such as 0+1 / 0x1 untouched apart from blanks"]}
 
+SESSION_RULE = ("seeded slice of the product: category subsets x {-, report, review, short-report, disable} x flag source (command line, "
+                "INLINE_SNAPSHOT_DEFAULT_FLAGS, pyproject default-flags / default-flags-tui, shortcut option) x review answers x {CI variable, -n 2, -n 0, tty via "
+                "FORCE_COLOR} x skip-snapshot-updates-for-now x xfail-marked copies x several call sites per category, on a project with one independent "
+                "call site per pending category; each case is one real `python -m pytest` session (plus Example.run_inline / Example.run_pytest for plain "
+                "category flags); non-trivial = something is pending and no usage error")
+STR_RULE = ("seeded generator (harness/engines/strlit.py): str / bytes over an adversarial alphabet (both quotes, backslash, CR, LF, tab, NUL, DEL, U+00A0, "
+            "U+2028, lone surrogate, astral, braces), quote-heavy strings, long strings, arbitrary code points; nesting top / list / dict / 1-tuple; "
+            "black or format-command=cat; plus one independent random literal per case for the lexer model; non-trivial = the string needs escaping")
+PROPS["C04"] = {"engines": [("session", {"quick": 160, "thorough": 5000})], "rule": SESSION_RULE, "cap_s": {"quick": 80, "thorough": 850},
+                "assumptions": ["pytest / pytest-xdist / rich behave as installed (real sessions)", "review prompts are answered through stdin in category order"]}
+PROPS["C19"] = {"engines": [("session", {"quick": 160, "thorough": 5000})], "rule": SESSION_RULE, "cap_s": {"quick": 80, "thorough": 850},
+                "assumptions": ["scope of the property: no externals, plain test_* functions without fixtures"]}
+PROPS["C12"] = {"engines": [("strlit", {"quick": 2500, "thorough": 60000})], "rule": STR_RULE,
+                "assumptions": ["evalLit (Model/StrLit.lean) is CPython's lexer on single non-raw literals — validated per case against ast.literal_eval on the generated "
+                                "literal and on an independent random literal", "the formatter preserves the value of the literal (AstPreserving) — validated per case by evaluating the written argument",
+                                "quote characters are printable (forced hypothesis of tripleQuote_isSome)"]}
+PROPS["C07"]["engines"].append(("session", {"quick": 64, "thorough": 1500}))
+PROPS["C07"]["rule"] = SITE_RULE + " ; plus " + SESSION_RULE
+
 ENGINES = {
+    "session": "real pytest sessions in throw-away projects against the gate model (Model/Session.lean); three-way run with Example.run_inline / run_pytest",
+    "strlit": "str/bytes -> literal text -> value: model literal vs value_to_token, evalLit vs ast.literal_eval, written argument evaluated",
     "align": "white-box differential run of _align.align/add_x on arbitrary relations + observable-level fix of list/tuple displays with hand-written elements",
     "mutate": "in-process differential run with mutable compared objects and mutation schedules; independent heap simulation as oracle",
     "site": "in-process differential run of the call-site state machine (Model/Site.lean, Table.lean) against the real snapshot classes",
@@ -64,3 +85,15 @@ PROPS["C11"]["level_text"] = ("Theorems (Props/C11.lean, for an ARBITRARY relati
     "specification), backM_fuel, nwAlign_valid, nwAlign_optimal, align_valid, align_prefix_suffix (maximal equal prefix and suffix are all m), align_optimal (no valid "
     "alignment has more matches), addX_valid / addX_matches. Correspondence: model script = script of the real align/add_x on random relations, and the kept/replaced "
     "pattern of the rewritten display equals the model's; direct oracle: validity, match count against an independent LCS, prefix/suffix text survival.")
+
+PROPS["C04"]["level_text"] = ("Theorems on the gate model (decision logic stated outright, for every configuration and pending set): flags_resolution, applied_subset_approved, "
+    "nothing_approved_nothing_written (no approval / short-report / disable / CI / xdist / non-CPython), applied_exact, illegal_combinations_error, xfail_inactive. "
+    "Correspondence: real pytest sessions over the configuration product; the set of rewritten categories read from the files equals the model's; direct oracle: "
+    "file unchanged when nothing is approved, applied subset of approved, exactness.")
+PROPS["C19"]["level_text"] = ("Theorem inline_eq_plugin (+ plain_configure): for plain category flags the change set selected by the run_inline model equals the set applied by the "
+    "plugin gate model. The property is mostly a differential statement about two separately coded drivers: the three-way run (run_inline, run_pytest, real session) "
+    "on generated projects carries it, with the files compared byte for byte.")
+PROPS["C12"]["level_text"] = ("Theorems (Props/C12.lean; strings = lists of code points < 0x110000 incl. lone surrogates, every isprintable predicate): evalLit_pyRepr, "
+    "evalBytes_bytesRepr, evalLit_tripleQuote, valueToLiteral_sound, valueToLiteral_roundtrip, tripleQuote_isSome(_iff), pyRepr_no_newline. Correspondence: model literal "
+    "text = value_to_token text character by character; evalLit = ast.literal_eval; direct oracle: the argument in the rewritten file evaluates to the original value "
+    "(top level and nested, black / format-command).")
